@@ -27,8 +27,8 @@ OBLIGATIONS = [
     "SkVerif.C07.row_eq_honest_fold_update",
     "SkVerif.C07.history_is_first_splits",
     "SkVerif.C07.row_eq_honest_fold_refit_each",
-    "SkVerif.C07.score_arg_order_partial",
-    "SkVerif.C07.score_arg_order_fails",
+    "SkVerif.C07.score_arg_order",
+    "SkVerif.C07.score_arg_order_witness",
     "SkVerif.C07.cutoff_and_len_columns",
     "SkVerif.C07.cutoff_column_is_last_train_label",
     "SkVerif.C07.return_data_columns",
@@ -56,8 +56,8 @@ RULE = ("exhaustive small scope over splitter kind x fh x window x step x strate
 LEVEL_TEXT = ("Lean 4 theorems, for all series, splitter configurations, both strategies, all forecaster machines and all metrics, about an executable model of evaluate(): "
               "one row per split, each row = the honest fold (fresh fit / fit-once-then-update) on exactly that split's window and test labels, len_train_window and cutoff columns, "
               "return_data columns, the forecaster's call trace = the honest calls, and no observation at or after a fold's first test label reaches the forecaster before that fold's predict "
-              "(from C01's train_lt_test and cutoff progression). The metric-argument-order clause is proved only for symmetric metrics (_partial) with a machine-checked counterexample "
-              "for an asymmetric one: the code calls scoring(y_pred, y_test) (known finding). The model is tied to the code by a differential correspondence with a recording forecaster.")
+              "(from C01's train_lt_test and cutoff progression), and the metric applied as metric(y_true, y_pred) for every metric (full strength since /repo fix 0f68875; "
+              "the earlier scoring(y_pred, y_test) defect is recorded as fixed). The model is tied to the code by a differential correspondence with a recording forecaster.")
 LEVEL_NOTE = ("Trusted: Lean kernel, axioms propext/Classical.choice/Quot.sound, faithfulness of the model as exercised by the correspondence, C01 splitter model, harness + compat layer. "
               "Only modelled: timing columns (absent), pandas append/astype mechanics (a row list). Integer index only.")
 TECHNIQUE = "Lean 4 proof (structural induction over the fold loop, refinement against an honest per-fold specification) + differential correspondence with a recording forecaster and asymmetric metrics"
@@ -141,7 +141,7 @@ def rec_class():
             return self
 
         def update(self, y, X=None, update_params=True):
-            self.log.append("U~%s~%s" % (ser(y), frame(X)))
+            self.log.append("U~%s~%s%s" % (ser(y), frame(X), "" if update_params is True else "~update_params=%r" % (update_params,)))
             self._tick()
             self.check_is_fitted()
             self.lastD = dig(y) + xdig(X)
